@@ -223,6 +223,146 @@ fn check_fill(rep: &Report, local: &mut Local, fc: &FillCase) {
     }
 }
 
+/// One fill sequence on the pair (FrameBuf, Context) the encoder hands to a source: `lens[i]` inter-channel
+/// samples are delivered at step i as integers (kind bit 0) or as packed bytes (kind bit 1).
+#[derive(Clone, Debug, Serialize, Deserialize)]
+pub struct SeqCase {
+    pub ch: usize,
+    pub bps: usize,
+    pub bytes: usize,
+    pub cap: usize,
+    pub lens: Vec<usize>,
+    pub kinds: u32,
+    pub pattern: u8,
+}
+
+/// Reference model of the pair: the frame buffer holds the last accepted block, the context the
+/// concatenation of all accepted blocks; a block longer than the buffer is refused and changes nothing;
+/// an empty block empties the buffer and is not counted as a frame.
+fn check_fill_sequence(rep: &Report, local: &mut Local, sc: &SeqCase) {
+    local.evals += 1;
+    let cj = || json!({"fill_sequence": sc});
+    let w = (sc.lens.iter().sum::<usize>() * sc.ch) as u64;
+    let fc = FillCase { ch: sc.ch, bps: sc.bps, bytes: sc.bytes, cap: sc.cap, len: 0, pattern: sc.pattern };
+    let r = panicx::catch(|| -> Result<(), (String, String)> {
+        let mut pair = (FrameBuf::with_size(sc.ch, sc.cap).map_err(|e| ("framebuf_new".to_string(), format!("{e:?}")))?, Context::new(sc.bps, sc.ch));
+        let mut m_last: Vec<i32> = Vec::new();
+        let mut m_all: Vec<i32> = Vec::new();
+        let mut m_frames = 0usize;
+        for (step, &len) in sc.lens.iter().enumerate() {
+            let blk = samples_for(&fc, len, 1000 * step + 7);
+            let as_bytes = sc.kinds >> step & 1 == 1;
+            let kind = if as_bytes { "byte" } else { "int" };
+            let res = if as_bytes { pair.fill_le_bytes(&le_bytes(&blk, sc.bytes), sc.bytes) } else { pair.fill_interleaved(&blk) };
+            let accept = len <= sc.cap;
+            if res.is_ok() != accept {
+                return Err((format!("seq_result|{kind}"), format!("step {step}: {kind} fill of {len} samples into a buffer of {} returned ok = {}", sc.cap, res.is_ok())));
+            }
+            if accept {
+                m_last = blk.clone();
+                if len > 0 {
+                    m_all.extend_from_slice(&blk);
+                    m_frames += 1;
+                }
+            }
+            let here = format!("after step {step} ({kind} fill of {len}; lengths {:?}, kinds {:#b})", sc.lens, sc.kinds);
+            let filled = m_last.len() / sc.ch;
+            if pair.0.filled_size() != filled {
+                return Err((format!("seq_filled_size|{kind}"), format!("{here}: filled size {}, model {filled}", pair.0.filled_size())));
+            }
+            let (view, _) = framebuf_view(&pair.0);
+            if view.len() == sc.cap * sc.ch {
+                for c in 0..sc.ch {
+                    for t in 0..filled {
+                        if view[c * sc.cap + t] != m_last[t * sc.ch + c] as i64 {
+                            return Err((format!("seq_framebuf_wrong|{kind}"), format!("{here}: channel {c} sample {t} holds {}, model {}", view[c * sc.cap + t], m_last[t * sc.ch + c])));
+                        }
+                    }
+                }
+            }
+            if pair.1.total_samples() != m_all.len() / sc.ch {
+                return Err((format!("seq_context_count|{kind}"), format!("{here}: context counts {} samples, model {}", pair.1.total_samples(), m_all.len() / sc.ch)));
+            }
+            let fnum = if m_frames > 0 { Some(m_frames - 1) } else { None };
+            if pair.1.current_frame_number() != fnum {
+                return Err((format!("seq_context_frame_number|{kind}"), format!("{here}: frame number {:?}, model {fnum:?}", pair.1.current_frame_number())));
+            }
+            if pair.1.md5_digest() != md5ref(&m_all, sc.bps) {
+                return Err((format!("seq_context_md5|{kind}"), format!("{here}: context MD5 differs from the MD5 of the accepted blocks")));
+            }
+        }
+        // the frame encoded from the final buffer holds the last accepted block
+        let filled = m_last.len() / sc.ch;
+        if sc.bps <= 24 && filled > 0 {
+            let cfg = verbatim_cfg();
+            let info = StreamInfo::new(44100, sc.ch, sc.bps).map_err(|e| ("machinery".to_string(), format!("{e:?}")))?;
+            let fr = flacenc::encode_fixed_size_frame(&cfg, &pair.0, 0, &info).map_err(|e| ("seq_frame_encode_error".to_string(), format!("{e:?}")))?;
+            let mut sink = ByteSink::new();
+            fr.write(&mut sink).map_err(|e| ("seq_frame_encode_error".to_string(), format!("{e:?}")))?;
+            let facts = InfoFacts { rate: 44100, channels: sc.ch as u32, bps: sc.bps as u32, ..Default::default() };
+            let (ff, chans, _) = strictflac::parse_single_frame(&sink.into_inner(), &facts).map_err(|e| ("seq_frame_unparsable".to_string(), e))?;
+            if ff.block_size != filled {
+                return Err(("seq_frame_block_size".into(), format!("frame holds {} samples, the last accepted block {filled} (lengths {:?}, kinds {:#b})", ff.block_size, sc.lens, sc.kinds)));
+            }
+            for c in 0..sc.ch {
+                for t in 0..filled {
+                    if chans[c][t] != m_last[t * sc.ch + c] as i64 {
+                        return Err(("seq_frame_samples".into(), format!("decoded channel {c} sample {t} = {}, last accepted block {} (lengths {:?}, kinds {:#b})", chans[c][t], m_last[t * sc.ch + c], sc.lens, sc.kinds)));
+                    }
+                }
+            }
+        }
+        Ok(())
+    });
+    match r {
+        Ok(Ok(())) => {
+            local.outcome("seq_ok");
+            if sc.lens.len() >= 2 && sc.kinds != 0 && sc.kinds != (1 << sc.lens.len()) - 1 {
+                local.nontrivial.insert(crate::universe::fnv(&format!("{sc:?}")));
+            }
+        }
+        Ok(Err((class, what))) => {
+            local.outcome(&class);
+            if class == "machinery" {
+                rep.machinery_error(&what);
+            } else {
+                rep.violation(&class, &what, cj(), w);
+            }
+        }
+        Err(p) => {
+            local.outcome("panic");
+            rep.violation(&p.class(), &format!("panic: {}", p.describe()), cj(), w);
+        }
+    }
+}
+
+/// Every fill sequence of length 1..=depth over the length alphabet {0, 1, 2, cap/2, cap-1, cap, cap+1} x
+/// every assignment of the two deliveries to the steps.
+fn seq_cases(thorough: bool) -> Vec<SeqCase> {
+    let depth = if thorough { 4 } else { 3 };
+    let mut v = Vec::new();
+    for ch in 1..=8usize {
+        for &(bps, bytes) in &[(8usize, 1usize), (12, 2), (16, 2), (20, 3), (24, 3), (32, 4)] {
+            for &cap in &[32usize, 33] {
+                let alpha = [0, 1, 2, cap / 2, cap - 1, cap, cap + 1];
+                for pattern in 0..if thorough { 2u8 } else { 1 } {
+                    for l in 1..=depth {
+                        let n = alpha.len().pow(l as u32);
+                        for i in 0..n {
+                            let mut x = i;
+                            let lens: Vec<usize> = (0..l).map(|_| { let a = alpha[x % alpha.len()]; x /= alpha.len(); a }).collect();
+                            for kinds in 0..(1u32 << l) {
+                                v.push(SeqCase { ch, bps, bytes, cap, lens: lens.clone(), kinds, pattern });
+                            }
+                        }
+                    }
+                }
+            }
+        }
+    }
+    v
+}
+
 fn fill_cases(thorough: bool) -> Vec<FillCase> {
     let mut v = Vec::new();
     let caps: &[usize] = if thorough { &[32, 33, 64, 100, 192] } else { &[32, 33, 64, 100] };
@@ -297,7 +437,10 @@ pub fn run(args: &Args, rep: &Arc<Report>) {
         let v: Value = serde_json::from_str(&s).unwrap_or(Value::Null);
         let c = v.get("case").cloned().unwrap_or(v);
         let mut local = Local::default();
-        if let Some(f) = c.get("fill") {
+        if let Some(f) = c.get("fill_sequence") {
+            let sc: SeqCase = serde_json::from_value(f.clone()).expect("bad fill sequence");
+            check_fill_sequence(rep, &mut local, &sc);
+        } else if let Some(f) = c.get("fill") {
             let fc: FillCase = serde_json::from_value(f.clone()).expect("bad fill case");
             check_fill(rep, &mut local, &fc);
         } else {
@@ -325,6 +468,23 @@ pub fn run(args: &Args, rep: &Arc<Report>) {
             }
         },
     );
+    let sqs = seq_cases(thorough);
+    let nq = sqs.len();
+    let qchunk = 512;
+    par_for(
+        rep,
+        (nq + qchunk - 1) / qchunk,
+        Duration::from_secs(300),
+        |i| json!({"fill_sequence": sqs[i * qchunk]}),
+        |i, local| {
+            for sc in &sqs[i * qchunk..((i + 1) * qchunk).min(nq)] {
+                check_fill_sequence(rep, local, sc);
+            }
+        },
+    );
+    rep.sample(json!({"fill_sequence": sqs[nq / 3]}));
+    rep.extra("fill_sequences", json!(nq));
+    rep.extra("fill_sequence_depth_completed", json!(if thorough { 4 } else { 3 }));
     let scs = stream_cases();
     let m = scs.len();
     par_for(
@@ -341,5 +501,5 @@ pub fn run(args: &Args, rep: &Arc<Report>) {
     );
     rep.extra("fill_cases", json!(n));
     rep.extra("stream_cases", json!(m));
-    rep.set_rule("fill level: channels 1..=8 x (width,bytes/sample){(8,1),(12,2),(16,2),(20,3),(24,3),(32,4)} x capacity{32,33,64,100(,192)} x EVERY fill length 0..=capacity applied after a full fill x patterns{ramp through both extremes, min/max alternation, LCG}: FrameBuf contents (whole buffer, both paths; filled part vs input), filled size, Context digest (vs the harness's LE serialisation), sample count, frame number, and the verbatim-coded frame from each buffer decoded by the reference decoder; stream level: channels 1..=8 x 5 widths x 4 shapes x 3 atoms: integer source vs byte source x {ST, MT, frame-level} byte-identical; non-trivial = a partial fill (0 < len < capacity) or a stream comparison");
+    rep.set_rule("fill level: channels 1..=8 x (width,bytes/sample){(8,1),(12,2),(16,2),(20,3),(24,3),(32,4)} x capacity{32,33,64,100(,192)} x EVERY fill length 0..=capacity applied after a full fill x patterns{ramp through both extremes, min/max alternation, LCG}: FrameBuf contents (whole buffer, both paths; filled part vs input), filled size, Context digest (vs the harness's LE serialisation), sample count, frame number, and the verbatim-coded frame from each buffer decoded by the reference decoder; sequence level: on the pair (FrameBuf, Context) every fill sequence of length 1..=3 (thorough: 4) over the block lengths {0, 1, 2, cap/2, cap-1, cap, cap+1 (refused)} x EVERY assignment of the two deliveries to the steps, channels 1..=8 x 6 widths x capacity {32,33}, judged after every step against a reference model (buffer = last accepted block, context = all accepted blocks; a refused block changes nothing, an empty one is no frame) and at the end through the frame encoded from the buffer; stream level: channels 1..=8 x 5 widths x 4 shapes x 3 atoms: integer source vs byte source x {ST, MT, frame-level} byte-identical; non-trivial = a partial fill (0 < len < capacity) or a stream comparison");
 }
